@@ -12,7 +12,7 @@ PROPERTY = "C01"
 LEVEL = "exploration"
 RULE = ("for each command (read counts, write values, write-multi payloads, AA55 commands) x registers x comm addresses: a "
         "reference-encoded valid answer and from it every truncation, every single-bit flip, havoc mutations, splices with "
-        "the valid answer to another command, trailing bytes, and pure garbage of length 0..300 are fed to the real validator "
+        "the valid answer to another command, trailing bytes, self-consistent frames of a wrong payload length, Modbus/TCP truncations with a rewritten MBAP length, write echoes of another register / value / count, exception frames with known and unknown codes, AA55 acknowledge frames of other commands, and pure garbage of length 0..300 are fed to the real validator "
         "(reached through the command object); an icontract postcondition on the real validate_* functions compares every "
         "acceptance with an independent acceptor written from the property text; a wrapper asserts the documented outcomes "
         "only; a transport-level part serves mutated frames through the real protocol objects; distinct = distinct "
